@@ -32,7 +32,7 @@ import (
 )
 
 var (
-	ctrlNames     = []string{"c0", "c1"}
+	ctrlNames = []string{"c0", "c1"}
 	// PrefixList is an ordinary (non-list) kind whose name happens to end in "List": informer tracking must key
 	// it by its real kind (only object LISTS have their "List" suffix trimmed).
 	composedKinds = []string{"KindA", "KindB", "PrefixList"}
@@ -352,8 +352,24 @@ func TestVerifC13Sequential(t *testing.T) {
 		n := rapid.IntRange(1, 14).Draw(t, "nops")
 		var hist []string
 		interesting, started := false, false
-		for i := 0; i < n; i++ {
-			o := genOp(true).Draw(t, "op")
+		// One case in six starts with the "informer replaced behind a watch" shape: c0 watches K, K's informer is
+		// removed, ANOTHER controller's watch re-creates an informer for K, then c0 asks for its (existing) watch
+		// again - "a watch lost with its informer is re-established by the next start request".
+		var script []op
+		if rapid.IntRange(0, 5).Draw(t, "replaced") == 0 {
+			k := rapid.SampledFrom(composedKinds).Draw(t, "rkind")
+			ws := []watchSpec{{engine.WatchTypeComposedResource, gvk(k)}}
+			script = []op{{Kind: "Start", Ctrl: "c0"}, {Kind: "Start", Ctrl: "c1"}, {Kind: "StartWatches", Ctrl: "c0", Watches: ws},
+				{Kind: "RemoveInformer", GVK: k}, {Kind: "StartWatches", Ctrl: "c1", Watches: ws}, {Kind: "StartWatches", Ctrl: "c0", Watches: ws}}
+			rec.Label("directed:informer-replaced-behind-a-watch")
+		}
+		for i := 0; i < n || len(script) > 0; i++ {
+			var o op
+			if len(script) > 0 {
+				o, script = script[0], script[1:]
+			} else {
+				o = genOp(true).Draw(t, "op")
+			}
 			if o.Kind == "GC" {
 				continue // the collector's semantics are decided by TestVerifC13GC
 			}
@@ -361,7 +377,7 @@ func TestVerifC13Sequential(t *testing.T) {
 			// One StartWatches in four is a "flaky start": the informer of its first kind fails once, and the
 			// request is retried twice - what a controller whose reconcile failed does on its next reconciles.
 			batch := []op{o}
-			if o.Kind == "StartWatches" && rapid.IntRange(0, 3).Draw(t, "flaky") == 0 {
+			if o.Kind == "StartWatches" && len(script) == 0 && rapid.IntRange(0, 3).Draw(t, "flaky") == 0 {
 				batch = []op{{Kind: "FailGet", Ctrl: o.Ctrl, GVK: o.Watches[0].GVK.Kind}, o, o, o}
 				rec.Label("flaky-startwatches-retried")
 			}
